@@ -356,4 +356,33 @@ measurement of 1.5 s, metadata in two namespaces and a time stamp satisfies `Tri
 example : (PC.mk ⟨"a", .integer 0 3 (some 0), some .log, .boolean⟩
     [(.int 0, [depthWitness, dfltWitness]), (.int 2, [dfltStrWitness])]).wf = true := by decide +kernel
 
+/-- non-vacuity: metadata in the root namespace and in a two-component namespace containing ':'
+and an interior backslash, with an empty string, an `Any` and a packed message as values -/
+def mdWitness : Md :=
+  [([], [("k", .str "")]), ([['a', ':', 'b'], ['x', '\\', 'y']], [("", .any "t"), ("k", .msg "u")])]
+
+example : MdWF mdWitness := ⟨by decide, by decide, by decide⟩
+
+example : DeltaWF ⟨mdWitness, [(7, mdWitness), (0, [])]⟩ :=
+  ⟨⟨by decide, by decide, by decide⟩, by decide,
+    by intro t ht; simp at ht; rcases ht with rfl | rfl <;> exact ⟨by decide, by decide, by decide⟩⟩
+
+/-- non-vacuity: a completed, infeasible trial with falsy parameter values, a final measurement of
+1.5 s, metadata and its own completion time satisfies the hypothesis of `c09_trial_roundtrip` -/
+example : TrialOk Cfg.fixed
+    { infeasibleWitness with
+      params := [("x", .int 0), ("y", .float 0), ("z", .str ""), ("w", .bool false)]
+      final := some measWitness, metadata := mdWitness } where
+  params_nodup := by decide
+  metadata := ⟨by decide, by decide, by decide⟩
+  final := by
+    intro m hm
+    have : m = measWitness := by simpa using hm.symm
+    subst this
+    exact ⟨c09_measWitness_valid, Or.inl rfl⟩
+  measurements := by intro m hm; cases hm
+  post_init := by intro _ h; cases h
+  pending_no_time := by intro h; exact absurd (by decide) h
+  infeasible_time := Or.inl rfl
+
 end VizierModel.C09
